@@ -56,10 +56,10 @@ def readers (m : Bytes) : Option String := do
   let idx := List.range n
   let tys ← idx.mapM (typeAt m)
   let av ← joinOpt (idx.map fun i =>
-    match typeAt m i, V.argument m i with
+    match typeAt m i, argument m i with
     | some t, some v => showVal m t v
     | _, _ => none)
-  let itl ← V.iterate m
+  let itl ← iterate m
   let it ← joinOpt (itl.map fun (t, v) => showVal m t v)
   pure s!"as={a}:{toHex ts} n={n} ty={toHex tys} av={av} it={it}"
 
